@@ -51,11 +51,12 @@ class StopCase(Exception):
 # ------------------------------------------------------------------------------------------------
 
 class Build:
-    __slots__ = ('i', 'pay', 'outcome', 'shape', 'pre', 'phase', 'claims', 'selecting', 'releasing', 'task', 'tx', 'inputs',
+    __slots__ = ('i', 'pay', 'outcome', 'shape', 'funding', 'pre', 'phase', 'claims', 'selecting', 'releasing', 'task', 'tx', 'inputs',
                  'error', 'cancel_phase', 'net', 'rounds')
 
-    def __init__(self, i, pay, outcome, shape='pay'):
+    def __init__(self, i, pay, outcome, shape='pay', funding=('a',)):
         self.i, self.pay, self.outcome, self.shape = i, pay, outcome, shape
+        self.funding = tuple(funding)     # names of the funding accounts, in the order they are passed
         self.pre = None          # pre-chosen input (an 'abandon' build spends a claim-like output of the wallet)
         self.rounds = 0          # funding rounds: calls of ledger.get_spendable_utxos
         self.phase = 'new'       # new -> building -> held | refused | failed | releasing -> released | cancelled
@@ -71,7 +72,7 @@ class Build:
 
     @property
     def kind(self):
-        return (self.pay, self.outcome, self.shape)
+        return (self.pay, self.outcome, self.shape, self.funding)
 
 
 class Violation(Exception):
@@ -164,8 +165,10 @@ def execute(case, chooser, visited=None, rolling=None):
     from lbry.error import InsufficientFundsError
     from lbry.wallet.rpc.jsonrpc import RPCError
 
-    coins = [Coin(a, 'conf', 'coin', (), k) if isinstance(a, int) else Coin(a[0], a[1], 'coin', (), k)
+    coins = [Coin(a, 'conf', 'coin', (), k) if isinstance(a, int) else
+             Coin(a[0], a[1], 'coin', ('other',) if len(a) > 2 and a[2] == 'b' else (), k)
              for k, a in enumerate(case['coins'])]
+    fundings = case.get('funding') or [['a']] * case['n']
     shapes = case.get('shapes') or ['pay'] * case['n']
     pre_coins = {}
     for i, shp in enumerate(shapes):
@@ -173,7 +176,8 @@ def execute(case, chooser, visited=None, rolling=None):
             # a claim-like output the build spends; after its own fee it brings 100 dewies, less than the base fee
             pre_coins[i] = Coin(ABANDON_AMOUNT, 'conf', 'claim', ('pre',), 2)
             coins.append(pre_coins[i])
-    h = WalletH(coins, strategy=case['strategy'], atomic_jobs=False, perm=case.get('perm', 0))
+    h = WalletH(coins, strategy=case['strategy'], atomic_jobs=False, perm=case.get('perm', 0),
+                second_account=any('b' in f for f in fundings))
     log = hashlib.blake2b(digest_size=12)
     violations = []
     events = 0
@@ -184,10 +188,16 @@ def execute(case, chooser, visited=None, rolling=None):
         initial = h.rows()
         initial_ids = set(initial)
         assert not h.reserved()
-        builds = [Build(i, p, o, shp) for i, (p, o, shp) in enumerate(zip(case['pays'], case['outcomes'], shapes))]
+        builds = [Build(i, p, o, shp, f) for i, (p, o, shp, f) in
+                  enumerate(zip(case['pays'], case['outcomes'], shapes, fundings))]
+        accounts = {'a': h.account, 'b': h.account2}
+        all_accounts = [a for a in (h.account, h.account2) if a is not None]
+
+        def wallet_utxo_ids():
+            return {u.id for a in all_accounts for u in h.run(a.get_utxos())}
         for i, c in pre_coins.items():
             builds[i].pre = c.txo
-        initial_utxo_ids = {u.id for u in h.run(acct.get_utxos())}
+        initial_utxo_ids = wallet_utxo_ids()
         by_task = {}
         cancel_victim = case.get('cancel')
         late = case.get('late')
@@ -254,13 +264,14 @@ def execute(case, chooser, visited=None, rolling=None):
 
         async def build(b):
             b.phase = 'building'
+            funding = [accounts[name] for name in b.funding]
             try:
                 if b.shape == 'pay':
-                    tx = await Transaction.create([], [Output.pay_pubkey_hash(b.pay, PAYEE_HASH)], [acct], acct)
+                    tx = await Transaction.create([], [Output.pay_pubkey_hash(b.pay, PAYEE_HASH)], funding, funding[0])
                 elif b.shape == 'outputless':       # sweep-like build: needs >= 2 funding rounds on a small first coin
-                    tx = await Transaction.create([], [], [acct], acct)
+                    tx = await Transaction.create([], [], funding, funding[0])
                 else:                               # 'abandon': spends a claim-like output, requests no output
-                    tx = await Transaction.create([Input.spend(b.pre)], [], [acct], acct)
+                    tx = await Transaction.create([Input.spend(b.pre)], [], funding, funding[0])
             except InsufficientFundsError:
                 b.phase, b.claims = 'refused', set()
                 return
@@ -307,26 +318,70 @@ def execute(case, chooser, visited=None, rolling=None):
             start(b)
         log.update(repr(order).encode())
 
-        def canon():
-            lock = ledger._utxo_reservation_lock
-            wl = ledger.db.db.write_lock
-            return (tuple((b.phase, tuple(sorted(b.claims)), b.selecting, b.releasing) for b in builds),
-                    tuple(sorted(h.reserved())), lock.locked(), len(lock._waiters or ()),
-                    wl.locked(), len(wl._waiters or ()),
-                    tuple(j.state for j in loop.jobs), sum(1 for hd in loop._ready if not hd._cancelled),
-                    len(h.network.pending), cancelled[0])
+        def all_locks():
+            """Every asyncio.Lock reachable from the ledger, its database and the address managers, found by type and not
+            by attribute name (a renamed, split or missing lock must not break the harness): [(canonical name, lock)]."""
+            out = []
+            owners = [('ledger', ledger), ('db', getattr(ledger.db, 'db', None))]
+            for oname, owner in owners:
+                for attr, val in sorted(getattr(owner, '__dict__', {}).items()):
+                    if isinstance(val, asyncio.Lock):
+                        out.append((f'{oname}.{attr}', val))
+                    elif isinstance(val, dict) and val and all(isinstance(v, asyncio.Lock) for v in val.values()):
+                        for k in sorted(val, key=repr):
+                            out.append((f'{oname}.{attr}[{k!r}]', val[k]))
+            for n, a in enumerate(all_accounts):
+                for chain in ('receiving', 'change'):
+                    lock = getattr(getattr(a, chain, None), 'address_generator_lock', None)
+                    if isinstance(lock, asyncio.Lock):
+                        out.append((f'account{n}.{chain}', lock))
+            return out
 
-        locks = [('rlock', ledger._utxo_reservation_lock), ('wlock', ledger.db.db.write_lock),
-                 ('clock', acct.change.address_generator_lock), ('alock', acct.receiving.address_generator_lock)]
+        def canon():
+            return (tuple((b.phase, tuple(sorted(b.claims)), b.selecting, b.releasing) for b in builds),
+                    tuple(sorted(h.reserved())),
+                    tuple((name, lock.locked(), len(lock._waiters or ())) for name, lock in all_locks()
+                          if lock.locked() or lock._waiters),
+                    tuple(j.state for j in loop.jobs), sum(1 for hd in loop._ready if not hd._cancelled),
+                    len(h.network.pending), cancelled[0], sync_state())
+
+        sync_task = [None]
+
+        def sync_state():
+            t = sync_task[0]
+            return None if case.get('sync') is None else 'pending' if t is None else 'done' if t.done() else 'running'
+
+        async def sync():
+            """What wallet sync does when it meets the funding transactions again: parse the raw transaction anew and
+            write it with save_transaction_io_batch for every own address (same height / 0 -> n / n -> 0)."""
+            mode = case['sync']
+            seen = set()
+            for c in h.coins:
+                ftx = c.txo.tx_ref.tx
+                address = c.txo.get_address(ledger)
+                if (id(ftx), address) in seen:
+                    continue
+                seen.add((id(ftx), address))
+                height, verified = ftx.height, ftx.is_verified
+                if mode == 'confirm' and height <= 0:
+                    height, verified = 7, True
+                elif mode == 'reorg' and height > 0:
+                    height, verified = 0, False
+                again = Transaction(ftx.raw, height=height, is_verified=verified)
+                await ledger.db.save_transaction_io_batch([again], address, ledger.address_to_hash160(address),
+                                                          f'{ftx.id}:{height}:')
 
         def full_state():
             """Everything the future of the execution depends on, in a form that does not mention object
             identities: task positions and what each task waits for, ready queue in order, executor jobs
             and their owners, lock queues, the is_reserved column, the harness's own variables."""
+            locks = all_locks()
             name = {}
             for b in builds:
                 if b.task is not None:
                     name[b.task] = ('B', b.i)
+            if sync_task[0] is not None:
+                name[sync_task[0]] = ('SYNC',)
             tasks = [t for t in asyncio.all_tasks(loop)]
             waits = {}
             for t in tasks:
@@ -398,7 +453,9 @@ def execute(case, chooser, visited=None, rolling=None):
                        for b in builds)
             net = tuple((n, fut.done()) for n, fut, raw in h.network.pending)
             return (tuple(tdesc), tuple(ready), jobs, lockq, hv, net, tuple(sorted(h.reserved())), cancelled[0],
-                    h.address_count())
+                    h.address_count(), sync_state(),
+                    repr(h.conn.execute("SELECT txid, height, is_verified FROM tx ORDER BY txid").fetchall())
+                    if case.get('sync') else None)
 
         def check_state():
             reserved = h.reserved()
@@ -420,8 +477,10 @@ def execute(case, chooser, visited=None, rolling=None):
                 flag({'kind': 'reserved-set-differs-from-held', 'extra': bool(reserved - union)},
                      f'no build is selecting or releasing, yet is_reserved ({len(reserved)} rows) != held inputs '
                      f'({len(union)})')
-            if ledger._utxo_reservation_lock._waiters:
+            if any(lock._waiters for lname, lock in all_locks() if 'reserv' in lname):
                 witnesses.add('build_waiting_on_reservation_lock')
+            if sync_task[0] is not None and not sync_task[0].done() and act:
+                witnesses.add('sync_rewrote_the_table_while_builds_held_outputs')
             if sum(1 for b in builds if b.phase == 'held') >= 2:
                 witnesses.add('two_builds_holding_at_once')
             return reserved
@@ -445,6 +504,8 @@ def execute(case, chooser, visited=None, rolling=None):
                 enabled.append(('JOB_RUN', j))
             if late is not None and builds[late].task is None:
                 enabled.append(('START', late))
+            if case.get('sync') is not None and sync_task[0] is None:
+                enabled.append(('SYNC', case['sync']))
             for (n, fut, raw) in h.network.pending:
                 enabled.append(('NET', n))
             if loop.next_timer() is not None:
@@ -483,6 +544,8 @@ def execute(case, chooser, visited=None, rolling=None):
                 if c > 0 and enabled[0][0] == 'STEP':
                     witnesses.add('job_completion_injected_early')
                 loop.job_done(x)
+            elif kind == 'SYNC':
+                sync_task[0] = loop.create_task(sync())
             elif kind == 'START':
                 start(builds[x])
                 if any(b.phase in ('building', 'held', 'broadcasting') for b in builds if b.i != x):
@@ -515,6 +578,8 @@ def execute(case, chooser, visited=None, rolling=None):
                 raise RuntimeError(f'C14 harness: quiescent but build {b.i} not finished ({b.phase}) - deadlock')
             if not b.task.cancelled() and b.task.exception() is not None:
                 raise b.task.exception()
+        if sync_task[0] is not None and sync_task[0].exception() is not None:
+            raise sync_task[0].exception()
         summary = tuple((b.phase, len(b.inputs or ())) for b in builds)
         for b in builds:
             if b.phase == 'held':
@@ -529,14 +594,15 @@ def execute(case, chooser, visited=None, rolling=None):
                  f'{len(left)} output(s) still reserved after every build finished and every holder released '
                  f'(cause: {cause}' + (f', build cancelled while {builds[cancel_victim].cancel_phase}' if cancelled[0] else '')
                  + f', strategy {case["strategy"]})')
-        utxos = h.run(acct.get_utxos())
-        if not left and {u.id for u in utxos} != initial_utxo_ids:
+        if not left and wallet_utxo_ids() != initial_utxo_ids:
             flag({'kind': 'utxo-set-changed'}, 'get_utxos() no longer returns the initial set')
         loop_exc = [str(c.get('exception') or c.get('message'))[:160] for c in loop.exc_contexts]
         if any(b.phase == 'refused' for b in builds):
             witnesses.add('a_build_was_refused')
         if any(b.rounds >= 2 for b in builds):
             witnesses.add('build_needed_two_funding_rounds')
+        if len({b.funding for b in builds}) > 1 and any(b.phase == 'refused' for b in builds):
+            witnesses.add('builds_with_different_funding_lists_competed')
         if any(b.rounds >= 2 and b.phase == 'refused' for b in builds):
             witnesses.add('build_failed_in_a_later_round_after_reserving')
         if any(initial[k]['height'] <= 0 for b in builds for k in (b.inputs or ())):
@@ -592,6 +658,19 @@ def multi_round_sets(n, shape):
     ]
 
 
+FUNDINGS = [['a'], ['b'], ['a', 'b'], ['b', 'a']]
+
+
+def two_account_sets(n):
+    """Two accounts of one wallet both hold coins ([amount, state, owner])."""
+    half = COIN // 2
+    return [
+        ('one-each_need-both', [[COIN, 'conf', 'a'], [COIN, 'conf', 'b']], COIN + half),
+        ('a-only', [[COIN, 'conf', 'a']] * n, half),
+        ('two-each', [[COIN, 'conf', 'a'], [COIN, 'conf', 'b']] * 2, half),
+    ]
+
+
 def outcome_vectors(n, tier):
     base = ['hold', 'release', 'bcast_fail']
     if n == 2:
@@ -614,7 +693,8 @@ def gen_cases(tier):
     quick = tier == 'quick'
     cases = []
 
-    def add(n, sets, strategies, ovs, cancel=None, late=None, bound=None, cross_check=False, source=None):
+    def add(n, sets, strategies, ovs, cancel=None, late=None, bound=None, cross_check=False, source=None, sync=None,
+            funding=None):
         for entry in (source or utxo_sets(n)):
             name, coins, pay = entry[:3]
             if sets is not None and name not in sets:
@@ -626,6 +706,10 @@ def gen_cases(tier):
                          'cross_check': cross_check}
                     if len(entry) > 3:
                         c['shapes'] = entry[3]
+                    if sync is not None:
+                        c['sync'] = sync
+                    if funding is not None:
+                        c['funding'] = [list(f) for f in funding]
                     cases.append(c)
 
     two = ['sqlite', 'prefer_confirmed']
@@ -694,6 +778,36 @@ def gen_cases(tier):
             add(2, ['U1+n-1_coins'], two, [['release', 'release']], cancel=0, source=multi_round_sets(2, shape))
             add(3, None, two, [['hold', 'release', 'release']], late=2, source=multi_round_sets(3, shape))
             add(4, ['U1+n-1_coins'], two, [['release'] * 4], source=multi_round_sets(4, shape))
+    # ---- wallet sync re-saves the funding transactions while builds run / hold (any writer of the txo table must
+    #      preserve reservations): the sync task starts at any iteration boundary, its database calls interleave
+    for mode in ('same', 'confirm', 'reorg'):
+        add(2, ['n_equal'], two, [['hold', 'hold'], ['hold', 'release']], sync=mode)
+        if not quick:
+            add(2, ['n-1_equal', 'pairwise'], two, [['hold', 'hold'], ['release', 'bcast_fail']], sync=mode)
+            add(3, ['n_equal'], two, [['hold', 'release', 'release']], sync=mode)
+    add(2, ['mixed-states', 'all-unconf'], two, [['hold', 'hold']], sync='confirm', source=state_sets(2))
+    add(2, ['mixed-states'], two, [['hold', 'hold']], sync='same', source=state_sets(2))
+    add(3, ['n_equal'], ['prefer_confirmed'] if quick else two, [['hold'] * 3], sync='same')
+    if not quick:
+        add(2, ['n_equal'], two, [['hold', 'hold']], sync='same', late=1)
+        add(2, ['n_equal'], two, [['hold', 'hold']], sync='confirm', cancel=0)
+    # ---- two funding accounts: builds name them as [a], [b], [a,b], [b,a]; overlapping or re-ordered lists compete for
+    #      the same outputs
+    pairs = list(itertools.combinations_with_replacement(range(4), 2))
+    hot = [(2, 3), (0, 2), (0, 3), (2, 2)]          # [a,b]/[b,a], [a]/[a,b], [a]/[b,a], [a,b]/[a,b]
+    for i, j in pairs:
+        sts = ALL_STRATEGIES if (i, j) in hot else (two if quick else four)
+        add(2, None if (i, j) in hot or not quick else ['one-each_need-both', 'two-each'], sts, [['hold', 'hold']],
+            source=two_account_sets(2), funding=[FUNDINGS[i], FUNDINGS[j]])
+    add(3, ['one-each_need-both', 'a-only'], two, [['hold'] * 3], source=two_account_sets(3),
+        funding=[['a'], ['a', 'b'], ['b', 'a']])
+    add(3, ['two-each'], two, [['hold', 'release', 'release']], source=two_account_sets(3),
+        funding=[['a', 'b'], ['b', 'a'], ['b']])
+    if not quick:
+        add(2, None, two, [['release', 'bcast_fail'], ['hold', 'release']], source=two_account_sets(2),
+            funding=[['a', 'b'], ['b', 'a']])
+        add(2, ['one-each_need-both', 'a-only'], two, [['hold', 'hold']], late=1, source=two_account_sets(2),
+            funding=[['a'], ['b', 'a']])
     # ---- the same exploration without state pruning must agree (validation of the pruning)
     add(2, ['n_equal', 'pairwise'] if quick else None, two, [['hold', 'release']], cross_check=True)
     if not quick:
@@ -790,7 +904,8 @@ def explore_case(case, res, cross_check=False):
         for _ in range(n):
             res.violation(sig, what, {'case': case, 'choices': choices})
     res.distinct_add('nontrivial', (case['n'], case['set'], case['strategy'], tuple(case['outcomes']), case['cancel'],
-                                    case['late'], tuple(case.get('shapes') or ())))
+                                    case['late'], tuple(case.get('shapes') or ()), case.get('sync'),
+                                    repr(case.get('funding'))))
     res.count('evaluations')
     res.distinct_add('distinct_outcomes', (case['n'], case['set'], case['strategy'], tuple(sorted(seen['outcomes']))))
     # determinism self-check: first, last and violating choice sequences are replayed twice without the
@@ -871,7 +986,9 @@ def run(ctx):
     ctx.pmap(work, items)
     ctx.res.sample({'case': cases[-1], 'choices': [], 'note': 'default schedule of the simplest case'})
     ctx.meta.update(
-        rule=('cases = N concurrent builds x UTXO set {N-1, N, N+1 equal coins; one big + dust; coins that only pairwise '
+        rule=('[also: a wallet-sync task re-saving the funding transactions (same height / confirm / reorg) started at any '
+              'boundary; two accounts holding coins with funding_accounts in {[a],[b],[a,b],[b,a]} per build] '
+              'cases = N concurrent builds x UTXO set {N-1, N, N+1 equal coins; one big + dust; coins that only pairwise '
               'cover; mixed confirmation states; confirmed-too-small + unconfirmed-plenty; all unconfirmed; small coin U1 + '
               'N-1 / N coins with build 0 output-less or an abandon (>= 2 funding rounds) against ordinary payments} x strategy x outcome vector over {hold, release_tx, broadcast_or_release with failing/accepting '
               'server} x {no fault, cancel build 0 at any boundary} x {all start together, last build arrives at any '
@@ -897,7 +1014,8 @@ def run(ctx):
         expected_witnesses=['build_waiting_on_reservation_lock', 'two_builds_holding_at_once',
                             'job_completion_injected_early', 'late_build_arrived_mid_flight',
                             'cancel_between_job_run_and_done', 'build_needed_two_funding_rounds',
-                            'build_failed_in_a_later_round_after_reserving', 'unconfirmed_output_selected'],
+                            'build_failed_in_a_later_round_after_reserving', 'unconfirmed_output_selected',
+                            'sync_rewrote_the_table_while_builds_held_outputs', 'builds_with_different_funding_lists_competed'],
     )
 
 
@@ -906,7 +1024,7 @@ def replay(data):
     case, choices = data['case'], data['choices']
     ch = Chooser(choices)
     obs = execute(case, ch)
-    lines = [f"case: N={case['n']} coins={case['coins']} pay={case['pays'][0]} shapes={case.get('shapes')} strategy={case['strategy']} "
+    lines = [f"case: N={case['n']} coins={case['coins']} pay={case['pays'][0]} shapes={case.get('shapes')} funding={case.get('funding')} sync={case.get('sync')} strategy={case['strategy']} "
              f"outcomes={case['outcomes']} cancel={case['cancel']} late={case['late']}",
              f"choices: {choices}", f"start order: {obs['order']}", f"final: {obs['summary']}"]
     for t in ch.trace:
